@@ -8,6 +8,7 @@ import (
 	"fmt"
 	"io"
 	"os"
+	"path/filepath"
 	"strings"
 	"sync"
 	"time"
@@ -30,6 +31,7 @@ type injector struct {
 	k      int            // fail the k-th point of that class
 	fired  bool
 	events []string
+	media  string   // directory holding the drive file (moved away by the gonew / goner classes)
 	ptrace []string // projection of the events onto spec/Locks.tla's observable steps (see project)
 	hook   func()   // called at every point (schedule perturbation for C11)
 }
@@ -46,10 +48,10 @@ func (in *injector) project(ev string) {
 		if n := len(in.ptrace); n == 0 || in.ptrace[n-1] != ev {
 			push(ev)
 		}
-	case "openw!":
+	case "openw!", "gonew-failed":
 		push("getw")
 		push("openfail")
-	case "openr!":
+	case "openr!", "goner-failed":
 		push("getr")
 		push("openfail")
 	case "write!", "read!", "meta!", "src!":
@@ -124,6 +126,14 @@ func (in *injector) point(class string) bool {
 	return fail
 }
 
+// mediaAway / mediaBack make the drive manager's own open fail for real (the medium's directory is
+// gone while it opens the drive) - unlike the openw / openr classes, which fail before the manager runs.
+func (in *injector) mediaAway() bool {
+	return in.media != "" && os.Rename(in.media, in.media+".gone") == nil
+}
+
+func (in *injector) mediaBack() { _ = os.Rename(in.media+".gone", in.media) }
+
 func (in *injector) note(ev string) {
 	in.mu.Lock()
 	defer in.mu.Unlock()
@@ -172,7 +182,14 @@ func (in *injector) wrapBackend(b config.BackendConfig) config.BackendConfig {
 		if in.point("openw") {
 			return config.DriveWriterConfig{}, errInjected
 		}
+		gone := in.point("gonew") && in.mediaAway()
 		w, err := b.GetWriter()
+		if gone {
+			in.mediaBack()
+			if err != nil {
+				in.note("gonew-failed")
+			}
+		}
 		if err != nil {
 			return w, err
 		}
@@ -188,7 +205,14 @@ func (in *injector) wrapBackend(b config.BackendConfig) config.BackendConfig {
 		if in.point("openr") {
 			return config.DriveReaderConfig{}, errInjected
 		}
+		gone := in.point("goner") && in.mediaAway()
 		r, err := b.GetReader()
+		if gone {
+			in.mediaBack()
+			if err != nil {
+				in.note("goner-failed")
+			}
+		}
 		if err != nil {
 			return r, err
 		}
@@ -361,11 +385,18 @@ func pickKs(n int, all bool) []int {
 
 // setupFault builds a fresh instance with an injector and replays the history fault-free.
 func setupFault(it *FaultItem, ks *sut.KeySet, dir string) (*sut.Instance, *World, *injector, error) {
-	in := &injector{counts: map[string]int{}}
-	inst, err := sut.Open(dir, "", it.Cfg, ks, in.wrap())
+	// the drive file lives in its own directory so that a "medium gone" fault (classes gonew /
+	// goner) can make exactly one open fail inside the drive manager without touching the index
+	media := filepath.Join(dir, "media")
+	if err := os.MkdirAll(media, 0o755); err != nil {
+		return nil, nil, nil, err
+	}
+	in := &injector{counts: map[string]int{}, media: media}
+	inst, err := sut.OpenPaths(filepath.Join(media, "drive.tar"), filepath.Join(dir, "index.sqlite"), dir, it.Cfg, ks, in.wrap())
 	if err != nil {
 		return nil, nil, nil, err
 	}
+	inst.Root, inst.InitErr = inst.FS.Initialize("/", os.ModePerm)
 	if inst.InitErr != nil {
 		return nil, nil, nil, inst.InitErr
 	}
@@ -535,7 +566,7 @@ func runFault(it *FaultItem, ks *sut.KeySet, workRoot string) (res FaultResult) 
 		}
 	}
 
-	for _, class := range []string{"openw", "write", "openr", "read", "meta", "src"} {
+	for _, class := range []string{"openw", "gonew", "write", "openr", "goner", "read", "meta", "src"} {
 		for _, k := range pickKs(counts[class], it.AllK) {
 			inst, w, in, ok := fresh()
 			if !ok {
